@@ -369,6 +369,27 @@ NetFail(k) ==
     /\ UNCHANGED <<envv, inj, opt, mapv, lazy, ph, call, pk, pg, cc0, todo, nextm, redirs, rdelay, redirects, attempts, res, fresh,
                    obsv, calls, changes, script, pool>>
 
+\* the connection is lost in the middle of a sub-batch: at least one reply was read, the node received (and may have executed)
+\* the rest, whose replies are lost.  Only in the configurations that override MidBatchLoss (MC_cluster_txloss*.cfg): the
+\* scenario generators do not script it; the real-code side of this fault is judged by Retry.tla (C03 / C28, cut-mid-reply).
+MidBatchLoss == FALSE
+MidLoss(k) ==
+    /\ MidBatchLoss /\ ph = "round" /\ k \in ActiveKeys /\ k[1] \notin down
+    /\ run[k].pp # 1..Len(run[k].r)
+    /\ run' = [run EXCEPT ![k] = [@ EXCEPT !.pp = {},
+                  !.r = [j \in 1..Len(@) |-> IF j \in run[k].pp THEN [rep |-> "neterr", to |-> None, i |-> run[k].w[j].i, ids |-> <<>>] ELSE @[j]]]]
+    /\ hist' = [i \in DOMAIN hist |->
+                  IF \E j \in run[k].pp : run[k].w[j].i = i
+                  THEN LET e == run[k].w[CHOOSE j \in run[k].pp : run[k].w[j].i = i]
+                       IN Append(hist[i], [n |-> k[1], g |-> k[2], ask |-> e.ask, rep |-> "neterr", to |-> None])
+                  ELSE hist[i]]
+    /\ nlog' = Put(nlog, k, (IF k \in DOMAIN nlog THEN nlog[k] ELSE <<>>)
+                            \o [x \in 1..Cardinality(run[k].pp) |->
+                                  LET j == CHOOSE y \in run[k].pp : Cardinality({z \in run[k].pp : z < y}) = x - 1
+                                  IN [op |-> run[k].w[j].op, i |-> run[k].w[j].i]])
+    /\ UNCHANGED <<envv, inj, opt, mapv, lazy, ph, call, pk, pg, cc0, todo, nextm, redirs, rdelay, redirects, attempts, res, fresh,
+                   calls, changes, script, pool>>
+
 \* ------------------------------------------------------------------------------------------------- environment: calls, refresh, topology changes
 \* mf: primaries the nodes list with health fail / loading (their shards have no usable master)
 ReportOfF(t, dn, mf) == [s \in Slots |-> [p |-> IF t[s] \in mf THEN None ELSE t[s],
@@ -432,7 +453,7 @@ Init ==
 Next == \/ \E c \in CallSet : Call(c)
         \/ Pick \/ Resolve \/ Refresh \/ RoundEnd \/ Return
         \/ \E c \in ChangeSet : Change(c)
-        \/ \E k \in DOMAIN run : NodeRecv(k) \/ NetFail(k) \/ Proc(k)
+        \/ \E k \in DOMAIN run : NodeRecv(k) \/ NetFail(k) \/ MidLoss(k) \/ Proc(k)
 
 Spec == Init /\ [][Next]_vars
 
@@ -508,8 +529,9 @@ TxResentWhole ==
     Active /\ HasInit /\ (\A k \in DOMAIN run : run[k].pp = {}) => \A i \in Mem : \A j \in BlockOf(i) :
         /\ Sends(i) = Sends(j)
         /\ \A x \in 1..Sends(i) : hist[i][x].n = hist[j][x].n /\ hist[i][x].g = hist[j][x].g /\ hist[i][x].ask = hist[j][x].ask
-        \* and never again after a send of it whose reply was lost with the connection (the server may have run EXEC)
-        /\ \A x \in 1..(Sends(j) - 1) : hist[j][x].rep # "neterr"
+        \* and never again after a send of it whose replies were lost with the connection (the server may have run EXEC), unless
+        \* the server had refused a member of that send before (EXEC then discards the block)
+        /\ \A x \in 1..(Sends(j) - 1) : hist[j][x].rep = "neterr" => \E m \in BlockOf(j) : hist[m][x].rep \in {"moved", "ask", "retry"}
 
 \* C21 ------------------------------------------------------------------------------------------------
 \* DoMultiStream is a one-node batch: it may go to a replica only when SendToReplicas answers true for every command of it,
